@@ -30,6 +30,9 @@ const HEALTHY_CALLS: usize = 5;
 const RECOVERY_WINDOW: usize = 3;
 const NOTICE_WAIT: Duration = Duration::from_millis(1000);
 const NODE_NAME: &str = "n0";
+const CONC_CLOSE: &str = "/c19x/close/";
+const CONC_RESET: &str = "/c19x/reset/";
+const CONC_OK: &str = "/c19x/ok/";
 
 // ------------------------------------------------------------------ outcome alphabet
 
@@ -182,6 +185,8 @@ struct Conn {
     /// this connection once swallowed a request ("silent" outcome): it stays silent for good, like a connection stuck in a
     /// hung worker, while NEW connections are served normally. A client that keeps it cached is talking to nobody.
     wedged: bool,
+    /// close this connection with RST instead of FIN (set by a request that asks for it)
+    rst: bool,
 }
 
 struct NodeInner {
@@ -255,7 +260,7 @@ impl NodeInner {
                 let _ = s.set_nodelay(true);
                 self.next_conn += 1;
                 let id = self.next_conn;
-                self.conns.push(Conn { id, s, buf: vec![], half_closed: false, peer_closed: false, wedged: false });
+                self.conns.push(Conn { id, s, buf: vec![], half_closed: false, peer_closed: false, wedged: false, rst: false });
                 self.ev(id, Ev::Accepted);
             }
         }
@@ -302,6 +307,10 @@ impl NodeInner {
                 keep = self.handle(&mut c, &h, q, b);
             }
             if !keep {
+                if c.rst {
+                    rst_close(c.s);
+                    continue;
+                }
                 let _ = c.s.shutdown(Shutdown::Both);
                 drop(c);
                 continue;
@@ -332,6 +341,13 @@ impl NodeInner {
         if c.wedged {
             self.ev(c.id, Ev::Ignored);
             return true;
+        }
+        // outcomes that travel with the request (concurrent-use part: several callers share the node, so a per-attempt mode
+        // would not say whose request it applies to): read the request, then close (FIN) or reset (RST) without a reply
+        if path.starts_with(CONC_CLOSE) || path.starts_with(CONC_RESET) {
+            self.ev(c.id, Ev::ClosedOnRequest);
+            c.rst = path.starts_with(CONC_RESET);
+            return false;
         }
         let base = SpecHeader { spec: oracle::SPEC, version: 1, id: h.id, query_format: h.query_format, ..Default::default() };
         let (bytes, ev) = match self.mode {
@@ -726,6 +742,30 @@ impl AnyFleet {
         match self {
             AnyFleet::Sync(f) => f.is_connected(node).ok(),
             AnyFleet::Async(f) => rt.block_on(f.is_connected(node)).ok(),
+        }
+    }
+    /// One read-only look at the fleet, as a dashboard or supervisor thread would take it.
+    fn observe(&self, rt: &tokio::runtime::Runtime, which: u64) -> usize {
+        match self {
+            AnyFleet::Sync(f) => match which % 5 {
+                0 => f.is_connected(NODE_NAME).map(|b| b as usize).unwrap_or(0),
+                1 => f.connected_nodes().len(),
+                2 => f.to_string().len(),
+                3 => f.keys().len(),
+                _ => f.is_connected_all() as usize,
+            },
+            AnyFleet::Async(f) => match which % 4 {
+                0 => rt.block_on(f.is_connected(NODE_NAME)).map(|b| b as usize).unwrap_or(0),
+                1 => rt.block_on(f.connected_nodes()).len(),
+                2 => rt.block_on(f.keys()).len(),
+                _ => rt.block_on(f.is_connected_all()) as usize,
+            },
+        }
+    }
+    fn health(&self, rt: &tokio::runtime::Runtime, path: &str) -> usize {
+        match self {
+            AnyFleet::Sync(f) => f.health_check(path).len(),
+            AnyFleet::Async(f) => rt.block_on(f.health_check(path)).len(),
         }
     }
 }
@@ -1143,6 +1183,283 @@ fn evaluate(run: &CaseRun, strict: bool) -> Verdict {
     v
 }
 
+// ------------------------------------------------------------------ concurrent use of one fleet
+
+/// What one concurrent-use unit observed.
+#[derive(Default)]
+struct ConcOut {
+    rounds: u64,
+    faults: BTreeMap<String, u64>,
+    fault_calls_failed: u64,
+    fault_calls_succeeded: u64,
+    judged_calls: u64,
+    judged_ok: u64,
+    judged_poller_calls: u64,
+    exempt_poller_calls: u64,
+    observer_ops: u64,
+    health_checks: u64,
+    timeouts_discarded: u64,
+    connections_accepted: u64,
+    distinct: Vec<u64>,
+    findings: Vec<(String, String, Value)>,
+    inconclusive: Vec<String>,
+}
+
+struct ConcFail {
+    who: String,
+    round: usize,
+    path: String,
+    res: Res,
+}
+
+#[derive(Clone, Copy, PartialEq)]
+enum Role {
+    Observe,
+    Call,
+    Health,
+}
+
+/// ONE fleet (max_attempts = 1, one node) used by several threads at once. A driver thread runs rounds of
+/// [a call that runs into a transport failure: the node reads the request and closes / resets the connection, or kills the
+/// idle connection just before the call] then [a call on the healthy node]. Meanwhile poller threads look at the same fleet
+/// (is_connected, connected_nodes, Display, keys, is_connected_all), call the same node, or run health checks. The node accepts
+/// every connection and answers every request except the driver's close/reset ones, so connections die only during a fault
+/// call, and the fleet has been told about each death (the failure was reported) when that call returns.
+/// Oracle: a call that starts after the fault call returned and ends before the next one starts (the driver's healthy calls;
+/// the pollers' calls that saw the same even `epoch` before and after) must succeed; one that fails while its request never
+/// reached the node was made on a dead cached connection, i.e. the reported failure left the node wedged for that call.
+/// Calls overlapping a fault call are not judged. A timeout (2 s node timeout, nothing here is silent) is discarded, never judged.
+fn run_concurrent_unit(kind: Kind, unit: usize, seed: u64, rounds: usize, deadline: Instant) -> ConcOut {
+    let mut out = ConcOut::default();
+    let k = kind.name();
+    let node = match FakeNode::start(NODE_NAME) {
+        Ok(n) => Arc::new(n),
+        Err(e) => {
+            out.inconclusive.push(format!("harness: concurrent-use unit: {e}"));
+            return out;
+        }
+    };
+    node.reset(0);
+    let timeout = Duration::from_secs(2);
+    let cfg = node_config(NODE_NAME, node.port, &[], timeout);
+    let opts = FleetOptions { default_timeout: timeout, retry_policy: RetryPolicy { max_attempts: 1, delay: Duration::from_millis(1) } };
+    let fleet = Arc::new(match kind {
+        Kind::Sync => AnyFleet::Sync(Fleet::with_options(vec![cfg], opts).expect("fleet")),
+        Kind::Async => AnyFleet::Async(AsyncFleet::with_options(vec![cfg], opts).expect("async fleet")),
+    });
+    let rt = Arc::new(tokio::runtime::Builder::new_multi_thread().worker_threads(2).enable_all().build().expect("runtime"));
+    // odd while a fault call is in progress
+    let epoch = Arc::new(AtomicU64::new(0));
+    let cur_round = Arc::new(AtomicUsize::new(0));
+    let stop = Arc::new(AtomicBool::new(false));
+    let failed: Arc<Mutex<Vec<ConcFail>>> = Arc::new(Mutex::new(vec![]));
+    // [observer ops, judged poller calls, judged ok, exempt poller calls, health checks, timeouts]
+    let ctr: Arc<Vec<AtomicU64>> = Arc::new((0..6).map(|_| AtomicU64::new(0)).collect());
+    let roles: [Role; 3] = match unit % 3 {
+        0 => [Role::Observe, Role::Observe, Role::Observe],
+        1 => [Role::Call, Role::Observe, Role::Observe],
+        _ => [Role::Call, Role::Health, Role::Observe],
+    };
+    let mut handles = vec![];
+    for (p, role) in roles.iter().copied().enumerate() {
+        let (fleet, rt, epoch, cur_round, stop, failed, ctr) = (fleet.clone(), rt.clone(), epoch.clone(), cur_round.clone(), stop.clone(), failed.clone(), ctr.clone());
+        let mut r = Rng::new(seed ^ 0xC19_0B5 ^ ((p as u64 + 1) << 32));
+        handles.push(std::thread::spawn(move || {
+            while !stop.load(Ordering::Relaxed) {
+                match role {
+                    Role::Observe => {
+                        std::hint::black_box(fleet.observe(&rt, r.below(20)));
+                        ctr[0].fetch_add(1, Ordering::Relaxed);
+                    }
+                    Role::Health => {
+                        std::hint::black_box(fleet.health(&rt, &format!("{CONC_OK}health")));
+                        ctr[4].fetch_add(1, Ordering::Relaxed);
+                        std::hint::black_box(fleet.observe(&rt, r.below(20)));
+                        ctr[0].fetch_add(1, Ordering::Relaxed);
+                    }
+                    Role::Call => {
+                        let e0 = epoch.load(Ordering::SeqCst);
+                        let round = cur_round.load(Ordering::SeqCst);
+                        let path = format!("{CONC_OK}{}", TOKEN.fetch_add(1, Ordering::Relaxed));
+                        let api = *r.pick(&[Api::Json, Api::Message, Api::JsonNoParams]);
+                        let res = fleet.call(&rt, api, NODE_NAME, &path, &json!({"tok": path}));
+                        let e1 = epoch.load(Ordering::SeqCst);
+                        if e0 != e1 || e0 % 2 == 1 {
+                            ctr[3].fetch_add(1, Ordering::Relaxed);
+                        } else {
+                            ctr[1].fetch_add(1, Ordering::Relaxed);
+                            if res.is_ok() {
+                                ctr[2].fetch_add(1, Ordering::Relaxed);
+                            } else if res.io_kind() == Some("TimedOut") {
+                                ctr[5].fetch_add(1, Ordering::Relaxed);
+                            } else {
+                                failed.lock().unwrap_or_else(|e| e.into_inner()).push(ConcFail { who: format!("poller thread {p}"), round, path, res });
+                            }
+                        }
+                    }
+                }
+            }
+        }));
+    }
+
+    let mut r = Rng::new(seed ^ 0xC19_C0C);
+    let mut fault_of_round: Vec<&'static str> = vec![];
+    for round in 0..rounds {
+        if Instant::now() > deadline {
+            break;
+        }
+        cur_round.store(round, Ordering::SeqCst);
+        let api = *r.pick(&[Api::Json, Api::Message, Api::JsonNoParams]);
+        let tok = TOKEN.fetch_add(1, Ordering::Relaxed);
+        let which = r.below(3);
+        let fault = ["accepted-then-closed", "reset", "closed-while-idle"][which as usize];
+        fault_of_round.push(fault);
+        *out.faults.entry(fault.to_string()).or_insert(0) += 1;
+        out.distinct.push(hash_of(&("concurrent-use", k, unit % 3, fault, api.name())));
+        epoch.fetch_add(1, Ordering::SeqCst);
+        let fpath = match which {
+            0 => format!("{CONC_CLOSE}{tok}"),
+            1 => format!("{CONC_RESET}{tok}"),
+            _ => {
+                // the node drops every live connection, then serves normally
+                node.set_mode(Out::IdleQuick, 0);
+                format!("{CONC_OK}{tok}i")
+            }
+        };
+        let fres = fleet.call(&rt, api, NODE_NAME, &fpath, &json!({"tok": fpath}));
+        epoch.fetch_add(1, Ordering::SeqCst);
+        if fres.is_ok() {
+            out.fault_calls_succeeded += 1; // possible only for closed-while-idle (nothing was cached)
+        } else {
+            out.fault_calls_failed += 1;
+        }
+        // the transport failure (if any) has been reported: this call must reconnect and succeed
+        let path = format!("{CONC_OK}{}", TOKEN.fetch_add(1, Ordering::Relaxed));
+        let res = fleet.call(&rt, api, NODE_NAME, &path, &json!({"tok": path}));
+        out.judged_calls += 1;
+        out.rounds += 1;
+        if res.is_ok() {
+            out.judged_ok += 1;
+        } else if res.io_kind() == Some("TimedOut") {
+            out.timeouts_discarded += 1;
+        } else {
+            failed.lock().unwrap_or_else(|e| e.into_inner()).push(ConcFail { who: format!("driver (after its {} call reported {})", api.name(), fres.short()), round, path, res });
+        }
+    }
+    stop.store(true, Ordering::Relaxed);
+    for h in handles {
+        let _ = h.join();
+    }
+    out.observer_ops = ctr[0].load(Ordering::Relaxed);
+    out.judged_poller_calls = ctr[1].load(Ordering::Relaxed);
+    out.judged_calls += out.judged_poller_calls;
+    out.judged_ok += ctr[2].load(Ordering::Relaxed);
+    out.exempt_poller_calls = ctr[3].load(Ordering::Relaxed);
+    out.health_checks = ctr[4].load(Ordering::Relaxed);
+    out.timeouts_discarded += ctr[5].load(Ordering::Relaxed);
+    let (log, herr, _) = node.take_log();
+    if let Some(e) = herr {
+        out.inconclusive.push(format!("concurrent-use unit: fake node trouble: {e}"));
+        return out;
+    }
+    out.connections_accepted = log.iter().filter(|e| e.ev == Ev::Accepted).count() as u64;
+    if (out.rounds as usize) < rounds {
+        out.inconclusive.push(format!("concurrent-use unit {k}/{unit} stopped at its wall-clock bound after {} of {rounds} rounds", out.rounds));
+    }
+    if out.observer_ops + out.judged_poller_calls + out.exempt_poller_calls < out.rounds {
+        out.inconclusive.push(format!("concurrent-use unit {k}/{unit}: the poller threads hardly ran ({} operations in {} rounds)", out.observer_ops, out.rounds));
+    }
+    // node side: which requests arrived, which were answered
+    let mut reached: HashMap<&str, bool> = HashMap::new();
+    for (i, e) in log.iter().enumerate() {
+        if let Ev::Request { path, .. } = &e.ev {
+            let replied = log.get(i + 1).is_some_and(|n| n.conn == e.conn && n.ev == Ev::RepliedOk);
+            reached.insert(path.as_str(), replied);
+        }
+    }
+    let role_names: Vec<&str> = roles.iter().map(|r| match r { Role::Observe => "observer", Role::Call => "caller", Role::Health => "health-checker" }).collect();
+    let scenario = json!({"part": "concurrent-use", "kind": k, "unit": unit, "seed": seed, "rounds": rounds, "pollers": role_names});
+    let fails = std::mem::take(&mut *failed.lock().unwrap_or_else(|e| e.into_inner()));
+    for f in fails.iter().take(4) {
+        let fault = fault_of_round.get(f.round).copied().unwrap_or("?");
+        let ctx = format!("{k}, max_attempts 1, one node that accepts every connection; pollers {role_names:?} on the same fleet; round {} of {rounds} (fault of the round: {fault}); {} accepted connection(s) over {} rounds", f.round, out.connections_accepted, out.rounds);
+        match reached.get(f.path.as_str()) {
+            None => out.findings.push((
+                format!("C19:wedged:{k}:{fault}:concurrent-use"),
+                format!("call {} by the {} failed with {} and its request never reached the node: it was made on a dead cached connection although the transport failure that killed it had already been reported to a caller, and no other fault was in progress — {ctx}", f.path, f.who, f.res.long()),
+                scenario.clone(),
+            )),
+            Some(true) => out.findings.push((
+                format!("C19:reply-not-reported:{k}:concurrent-use"),
+                format!("call {} by the {} reported {} although the node answered it successfully — {ctx}", f.path, f.who, f.res.long()),
+                scenario.clone(),
+            )),
+            Some(false) => out.inconclusive.push(format!("concurrent-use unit {k}/{unit}: the fake node could not answer {} ({})", f.path, f.res.long())),
+        }
+    }
+    out
+}
+
+/// The concurrent-use part of the retry stage: several units (fleet kind x poller mix) side by side.
+fn run_concurrent(args: &Args, rep: &mut Report, only: Option<(Kind, usize, u64)>) {
+    let rounds = args.budget(400, 2500) as usize;
+    let deadline = Instant::now() + Duration::from_secs(if args.thorough() { 90 } else { 20 });
+    let units: Vec<(Kind, usize, u64)> = match only {
+        Some(u) => vec![u],
+        None => {
+            let mut u = vec![];
+            for i in 0..(if args.thorough() { 9 } else { 6 }) {
+                u.push((Kind::Sync, i, args.seed.wrapping_mul(1_000_003).wrapping_add(i as u64)));
+            }
+            for i in 0..3 {
+                u.push((Kind::Async, i, args.seed.wrapping_mul(1_000_003).wrapping_add(100 + i as u64)));
+            }
+            u
+        }
+    };
+    let handles: Vec<_> = units.into_iter().map(|(kind, unit, seed)| std::thread::spawn(move || run_concurrent_unit(kind, unit, seed, rounds, deadline))).collect();
+    let mut total_faults = 0;
+    for h in handles {
+        let o = match h.join() {
+            Ok(o) => o,
+            Err(_) => {
+                rep.inconclusive("harness: a concurrent-use unit panicked");
+                continue;
+            }
+        };
+        for _ in 0..o.judged_calls {
+            rep.eval();
+        }
+        for d in &o.distinct {
+            rep.distinct(d);
+        }
+        rep.count("concurrent_use:rounds", o.rounds);
+        for (f, n) in &o.faults {
+            rep.count(&format!("concurrent_use:fault:{f}"), *n);
+        }
+        total_faults += o.fault_calls_failed;
+        rep.count("concurrent_use:fault_calls_reporting_a_transport_failure", o.fault_calls_failed);
+        rep.count("concurrent_use:fault_calls_that_succeeded(nothing cached to kill)", o.fault_calls_succeeded);
+        rep.count("concurrent_use:calls_judged(must succeed)", o.judged_calls);
+        rep.count("concurrent_use:calls_judged_ok", o.judged_ok);
+        rep.count("concurrent_use:poller_calls_judged", o.judged_poller_calls);
+        rep.count("concurrent_use:poller_calls_overlapping_a_fault(not judged)", o.exempt_poller_calls);
+        rep.count("concurrent_use:observer_operations", o.observer_ops);
+        rep.count("concurrent_use:health_checks", o.health_checks);
+        rep.count("concurrent_use:timeouts_discarded", o.timeouts_discarded);
+        rep.count("concurrent_use:connections_accepted_by_the_nodes", o.connections_accepted);
+        for (sig, detail, sc) in o.findings {
+            rep.violation(sig, detail, sc);
+        }
+        for i in o.inconclusive {
+            rep.inconclusive(i);
+        }
+    }
+    if total_faults == 0 {
+        rep.inconclusive("concurrent-use part: no fault call reported a transport failure");
+    }
+}
+
 // ------------------------------------------------------------------ retry stage driver
 
 fn sequences(len: usize) -> impl Iterator<Item = Vec<Out>> {
@@ -1256,13 +1573,28 @@ fn run_retry(args: &Args) -> Report {
          length <= max_attempts+2 (thorough: max_attempts 1..3; quick: 1..2 + seeded sample of 3) x {Fleet, AsyncFleet}, then 5 \
          healthy calls; oracle on the attempt log: attempts <= max, no attempt after a reply, result = the reply else a \
          transport error fitting the last attempt, within 3 healthy calls one succeeds and all later ones do; distinct = \
-         (fleet kind, max_attempts, script, entry point, malformed kind) of cases containing a fault",
+         (fleet kind, max_attempts, script, entry point, malformed kind) of cases containing a fault. Plus concurrent use of ONE fleet (max_attempts 1): a driver thread alternates a call that \
+         runs into a transport failure (node reads the request and closes / resets, or kills the idle connection) with a call on the healthy node while 3 other threads poll the same fleet \
+         (is_connected, connected_nodes, Display, keys, is_connected_all), call the same node or run health checks; a call that starts after the failure was reported and overlaps no fault must succeed: \
+         failing without its request reaching the node (which accepts every connection) means a dead cached connection was kept",
     );
     rep.max_samples = 8;
-    install_probe();
     // replay of one recorded scenario
-    if let Some(path) = &args.replay {
-        let sc = std::fs::read_to_string(path).ok().and_then(|s| serde_json::from_str::<Value>(&s).ok());
+    let replay_sc = args.replay.as_ref().map(|path| std::fs::read_to_string(path).ok().and_then(|s| serde_json::from_str::<Value>(&s).ok()));
+    if let Some(Some(v)) = &replay_sc {
+        let v = if v["scenario"].is_object() { &v["scenario"] } else { v };
+        if v["part"] == "concurrent-use" {
+            let kind = if v["kind"] == "async_fleet" { Kind::Async } else { Kind::Sync };
+            run_concurrent(args, &mut rep, Some((kind, v["unit"].as_u64().unwrap_or(0) as usize, v["seed"].as_u64().unwrap_or(1))));
+            return rep;
+        }
+    }
+    // concurrent use of one fleet (its own threads; before the probe is installed and the case workers start)
+    if args.replay.is_none() {
+        run_concurrent(args, &mut rep, None);
+    }
+    install_probe();
+    if let Some(sc) = replay_sc {
         let spec = sc.as_ref().and_then(|v| CaseSpec::from_replay(if v["scenario"].is_object() { &v["scenario"] } else { v }));
         match spec {
             Some(spec) => {
@@ -1480,6 +1812,8 @@ struct TagOut {
     perturbations: u64,
     big_fleet_broadcasts: u64,
     history_broadcasts: u64,
+    alphabet_broadcasts: u64,
+    alphabet_fleets: u64,
     findings: Vec<(String, String, Value)>,
     inconclusive: Vec<String>,
     distinct: Vec<u64>,
@@ -1716,6 +2050,153 @@ fn run_big_fleet(kind: Kind, seed: u64, nodes: &[Arc<FakeNode>], rt: &tokio::run
     }
 }
 
+/// Large TAG ALPHABETS (the statement bounds neither the number of nodes nor the number of distinct tags): a fleet whose nodes
+/// carry, in total, 1 .. 300 distinct tags, some nodes registered at construction and the others through add_node, then one
+/// removed. No node listens (the port is reserved and refuses): a broadcast still yields one result per addressed node, so the
+/// addressed set is the key set of the result map. Requests name early and late tags, one or several, known and unknown; the
+/// addressed set, filter_nodes and keys must equal the member -> tags model.
+fn run_tag_alphabet(kind: Kind, seed: u64, which: usize, rt: &tokio::runtime::Runtime, out: &mut TagOut) {
+    const SIZES: [usize; 9] = [1, 2, 63, 64, 65, 66, 100, 130, 300];
+    let total = SIZES[which % SIZES.len()];
+    let mut r = Rng::new(seed ^ 0xC19_A1FA);
+    let k = kind.name();
+    let (_reserved, port) = match mk_socket(0, false) {
+        Ok(x) => x,
+        Err(e) => {
+            out.inconclusive.push(format!("harness: reserving a refusing port: {e}"));
+            return;
+        }
+    };
+    let n = 2 + r.usize_below(6);
+    // tags are opaque strings; their names carry no order
+    let alphabet: Vec<String> = (0..total).map(|j| format!("{:04x}/{j}", hash_of(&(seed, j)) & 0xffff)).collect();
+    let mut node_tags: Vec<BTreeSet<String>> = vec![BTreeSet::new(); n];
+    for (j, t) in alphabet.iter().enumerate() {
+        for (i, tags) in node_tags.iter_mut().enumerate() {
+            // tag 0 is on every node, tag j on node j % n, and now and then on others too
+            if j == 0 || j % n == i || r.below(8) == 0 {
+                tags.insert(t.clone());
+            }
+        }
+    }
+    let names: Vec<String> = (0..n).map(|i| format!("alpha{i}")).collect();
+    let timeout = Duration::from_secs(2);
+    let mk = |i: usize| node_config(&names[i], port, &node_tags[i].iter().map(|s| s.as_str()).collect::<Vec<_>>(), timeout);
+    let at_construction = r.usize_below(n + 1);
+    let opts = FleetOptions { default_timeout: timeout, retry_policy: RetryPolicy { max_attempts: 1, delay: Duration::from_millis(1) } };
+    let cfgs: Vec<NodeConfig> = (0..at_construction).map(&mk).collect();
+    let fleet = match kind {
+        Kind::Sync => AnyFleet::Sync(Fleet::with_options(cfgs, opts).expect("fleet")),
+        Kind::Async => AnyFleet::Async(AsyncFleet::with_options(cfgs, opts).expect("fleet")),
+    };
+    let mut member: Vec<bool> = (0..n).map(|i| i < at_construction).collect();
+    let mut hist = format!("{k}, {total} distinct tags over {n} nodes (a port that refuses connections), {at_construction} node(s) at construction");
+    let pick = |r: &mut Rng| alphabet[r.usize_below(total)].clone();
+    let step = |r: &mut Rng, member: &[bool], hist: &str, out: &mut TagOut| -> bool {
+        let mut requests: Vec<Vec<String>> = vec![vec![], vec![alphabet[0].clone()], vec![alphabet[total - 1].clone()], vec!["no-such-tag".to_string()], vec![alphabet[total - 1].clone(), "no-such-tag".to_string()]];
+        for _ in 0..6 {
+            let t = pick(r);
+            requests.push(vec![t.clone()]);
+            requests.push(vec![alphabet[0].clone(), t.clone()]);
+            // two tags of one node (never an empty answer for a member), and two arbitrary tags
+            let i = r.usize_below(n);
+            let own: Vec<&String> = node_tags[i].iter().collect();
+            requests.push(vec![own[r.usize_below(own.len())].clone(), own[r.usize_below(own.len())].clone()]);
+            requests.push(vec![pick(r), t]);
+        }
+        // the last tags of the alphabet, one by one
+        for j in (0..total).rev().take(4) {
+            requests.push(vec![alphabet[j].clone()]);
+        }
+        for (qi, q) in requests.iter().enumerate() {
+            let reduce = qi % 3 == 1;
+            let path = format!("/c19b/{}", TOKEN.fetch_add(1, Ordering::Relaxed));
+            let got_list: Vec<String> = match (&fleet, reduce) {
+                (AnyFleet::Sync(f), false) => f.broadcast_json(&path, None, q).into_keys().collect(),
+                (AnyFleet::Sync(f), true) => f.map_reduce_json(&path, None, q, |rs| rs.into_iter().map(|r| r.node).collect()),
+                (AnyFleet::Async(f), false) => rt.block_on(f.broadcast_json(&path, None, q)).into_keys().collect(),
+                (AnyFleet::Async(f), true) => rt.block_on(f.map_reduce_json(&path, None, q, |rs| rs.into_iter().map(|r| r.node).collect())),
+            };
+            let filtered: BTreeSet<String> = match &fleet {
+                AnyFleet::Sync(f) => f.filter_nodes(q).into_iter().map(|n| n.name).collect(),
+                AnyFleet::Async(f) => rt.block_on(f.filter_nodes(q)).into_iter().map(|n| n.name).collect(),
+            };
+            let want: BTreeSet<String> = (0..n).filter(|&i| member[i] && q.iter().all(|t| node_tags[i].contains(t))).map(|i| names[i].clone()).collect();
+            let got: BTreeSet<String> = got_list.iter().cloned().collect();
+            out.evals += 1;
+            out.broadcasts += 1;
+            out.alphabet_broadcasts += 1;
+            out.results_checked += got_list.len() as u64;
+            out.distinct.push(hash_of(&("alphabet", k, total, q.len(), q.iter().map(|t| alphabet.iter().position(|a| a == t).map(|p| p * 8 / total)).collect::<Vec<_>>(), reduce)));
+            let pos: Vec<String> = q.iter().map(|t| alphabet.iter().position(|a| a == t).map(|p| format!("#{p}")).unwrap_or("unknown".into())).collect();
+            let scenario = json!({"part": "tag-alphabet", "kind": k, "distinct_tags": total, "nodes": n, "seed": seed, "which": which, "requested": q, "via": if reduce {"map_reduce_json"} else {"broadcast_json"}});
+            let ctx = format!("requested {q:?} (tag(s) {pos:?} of {total}) via {} — {hist}", if reduce { "map_reduce_json" } else { "broadcast_json" });
+            let before = out.findings.len();
+            if got_list.len() != got.len() || got_list.len() != want.len() && got == want {
+                out.findings.push((format!("C19:broadcast-result-count:{k}:large-tag-alphabet"), format!("{} results for {} addressed nodes — {ctx}", got_list.len(), want.len()), scenario.clone()));
+            }
+            if let Some(x) = got.difference(&want).next() {
+                out.findings.push((format!("C19:broadcast-addressed-extra:{k}:large-tag-alphabet"), format!("result from {x} which does not carry all requested tags (or is not a member) — {ctx}"), scenario.clone()));
+            }
+            if let Some(x) = want.difference(&got).next() {
+                out.findings.push((format!("C19:broadcast-missed-node:{k}:large-tag-alphabet"), format!("no result for {x} (nor for {} other node(s)) which carries all requested tags; filter_nodes lists {filtered:?} — {ctx}", want.difference(&got).count() - 1), scenario.clone()));
+            }
+            if filtered != want {
+                out.findings.push((format!("C19:filter-nodes:{k}:large-tag-alphabet"), format!("filter_nodes returned {filtered:?}, expected {want:?} — {ctx}"), scenario.clone()));
+            }
+            if out.findings.len() > before {
+                return false;
+            }
+        }
+        let mut keys = match &fleet {
+            AnyFleet::Sync(f) => f.keys(),
+            AnyFleet::Async(f) => rt.block_on(f.keys()),
+        };
+        keys.sort();
+        let want: Vec<String> = (0..n).filter(|&i| member[i]).map(|i| names[i].clone()).collect();
+        out.evals += 1;
+        if keys != want {
+            out.findings.push((format!("C19:membership:keys:{k}:large-tag-alphabet"), format!("keys() = {keys:?}, members are {want:?} — {hist}"), json!({"part": "tag-alphabet", "kind": k, "seed": seed, "which": which})));
+            return false;
+        }
+        true
+    };
+    if at_construction > 0 && !step(&mut r, &member, &hist, out) {
+        return;
+    }
+    for i in at_construction..n {
+        let res = match &fleet {
+            AnyFleet::Sync(f) => f.add_node(mk(i)),
+            AnyFleet::Async(f) => rt.block_on(f.add_node(mk(i))),
+        };
+        if let Err(e) = res {
+            out.findings.push((format!("C19:membership:add-node:{k}:large-tag-alphabet"), format!("add_node({}) failed: {e} — {hist}", names[i]), json!({"part": "tag-alphabet", "kind": k, "seed": seed, "which": which})));
+            return;
+        }
+        member[i] = true;
+        hist.push_str(&format!(", add_node({} with {} tags)", names[i], node_tags[i].len()));
+    }
+    if at_construction < n && !step(&mut r, &member, &hist, out) {
+        return;
+    }
+    // one node leaves: its tags may now be carried by nobody
+    let gone = r.usize_below(n);
+    let removed = match &fleet {
+        AnyFleet::Sync(f) => f.remove_node(&names[gone]),
+        AnyFleet::Async(f) => rt.block_on(f.remove_node(&names[gone])),
+    };
+    out.evals += 1;
+    if !removed {
+        out.findings.push((format!("C19:membership:remove-node:{k}:large-tag-alphabet"), format!("remove_node({}) returned false for a member — {hist}", names[gone]), json!({"part": "tag-alphabet", "kind": k, "seed": seed, "which": which})));
+        return;
+    }
+    member[gone] = false;
+    hist.push_str(&format!(", remove_node({})", names[gone]));
+    if step(&mut r, &member, &hist, out) {
+        out.alphabet_fleets += 1;
+    }
+}
+
 /// Dynamic membership: ONE fleet instance (and a clone of it) lives through a random history of add_node / remove_node /
 /// broadcast / map_reduce / keys; the model is the current member -> tag-set map. What an earlier broadcast saw must not
 /// influence a later one (state cached across operations), a removed node is never addressed again and an added one always is.
@@ -1851,7 +2332,9 @@ fn run_tags(args: &Args) -> Report {
          requested tags, one result each holding that node's own reply, and on the node side exactly one request at each \
          addressed node and none elsewhere; distinct = (kind, node tag sets, requested set, down node, entry point). Plus dynamic-membership histories (600 quick / 6000 thorough): one fleet \
          and a clone of it through random add_node / remove_node / keys / disconnect_all / connect_all / reconnect_disconnected / health_check / broadcast / map_reduce steps with a few recurring \
-         requests, every broadcast judged the same way against the member -> tags model at that moment",
+         requests, every broadcast judged the same way against the member -> tags model at that moment. Plus large tag alphabets: fleets whose nodes carry 1, 2, 63, 64, 65, 66, 100, 130, 300 distinct tags in total \
+         (nodes registered at construction and through add_node, one removed; nobody listens, a refused node still yields its result), requests naming early, late, several and unknown tags; \
+         addressed set (result keys), filter_nodes and keys against the member -> tags model",
     );
     install_probe(); // only counts: fleet.attempt fires on broadcast threads that carry no case
     let (cfgs, space) = if args.thorough() {
@@ -1897,6 +2380,9 @@ fn run_tags(args: &Args) -> Report {
                     if idx % 10 < 2 {
                         run_big_fleet(kind, seed.wrapping_mul(1_000_003).wrapping_add(idx as u64), &nodes, &rt, &mut out);
                     }
+                    if idx % 10 == 4 || idx % 10 == 5 {
+                        run_tag_alphabet(kind, seed.wrapping_mul(1_000_003).wrapping_add(idx as u64), idx / 10, &rt, &mut out);
+                    }
                 } else {
                     let idx = idx - histories;
                     run_tag_config(kind, &cfgs[idx / 2], idx / 2, &nodes, &rt, &mut out);
@@ -1926,6 +2412,8 @@ fn run_tags(args: &Args) -> Report {
         rep.count("connection_cache_perturbations_inside_histories", o.perturbations);
         rep.count("broadcasts_to_fleets_of_5_to_65_nodes", o.big_fleet_broadcasts);
         rep.count("broadcasts_inside_membership_histories", o.history_broadcasts);
+        rep.count("broadcasts_to_fleets_with_1_to_300_distinct_tags", o.alphabet_broadcasts);
+        rep.count("large_tag_alphabet_fleets_completed", o.alphabet_fleets);
         for (sig, detail, sc) in o.findings {
             rep.violation(sig, detail, sc);
         }
